@@ -2,7 +2,7 @@
 C10 — different Desync objects make progress independently.
 -/
 import DesyncModel.Spec
-import DesyncModel.Tables
+import DesyncModel.Tables.Pool
 
 namespace Desync.C10
 open Desync Gen
